@@ -659,7 +659,7 @@ impl Prop for C11 {
     const ID: &'static str = "C11";
     const LEVEL: &'static str = "fault_enumeration";
     fn rule() -> &'static str {
-        "fault enumeration (one enumerated case = one (shape, operation) pair executed at EVERY fault point k; the class 'fault-points-executed' counts the (case,k) runs): for every operation that runs caller code (Default/Clone/Drop of elements, the harness' own ExactSizeIterator whose into_iter/len/size_hint/next/next_back are fault points, comparators, key functions, Ord, PartialEq, Hash) x every shape (0..=4)^2 x every index: N = calls into caller code with the fuse off, then one case per k in 0..N with the k-th call panicking, plus iterators whose len() lies (expected/true-1/+1/+3/0/usize::MAX/usize::MAX/2) or that yield fewer/more items than they report; random shapes up to 12x12 with random k. Oracle after catch_unwind: C01 shape invariant, reachable ids live + pairwise distinct + subset of (before, supplied, minted by the operation), no double drop, then a fixed fault-free follow-up (push_row, half-consumed remove_col, fill, indexed writes, clear, regrow, drop) under the same oracle. Non-trivial = the injected fault fired inside an operation on a non-empty array. Distinct = distinct (shape, op, k)."
+        "fault enumeration (one enumerated case = one (shape, operation) pair executed at EVERY fault point k; the class 'fault-points-executed' counts the (case,k) runs): for every operation that runs caller code (Default/Clone/Drop of elements, the harness' own ExactSizeIterator whose into_iter/len/size_hint/next/next_back are fault points, comparators, key functions, Ord, PartialEq, Hash) x every shape (0..=4)^2 x every index: N = calls into caller code with the fuse off, then one case per k in 0..N with the k-th call panicking, plus iterators whose len() lies (expected/true-1/+1/+3/0/usize::MAX/usize::MAX/2) or that yield fewer/more items than they report; random shapes up to 12x12 with random k. Oracle after catch_unwind: C01 shape invariant, reachable ids live + pairwise distinct + subset of (before, supplied, minted by the operation), no double drop, then a fixed fault-free follow-up (push_row, half-consumed remove_col, fill, indexed writes, clear, regrow, drop) under the same oracle. Non-trivial = the injected fault fired inside an operation on a non-empty array. Distinct = distinct (shape, op, k). Also: fickle iterators whose len() / size_hint() answers change between the first, second and later calls; drains consumed with nth / nth_back (the skipped elements' Drop is caller code); element type Nd (no drop glue, yet Clone / Default / comparisons are caller code)."
     }
     fn bound(_tier: Tier) -> String {
         "shapes (0..=4)^2, all insertion/removal indices, all 11 sort variants x all lines, every fault point k in 0..N, element types Tr, Bx, Zs".into()
@@ -917,7 +917,7 @@ impl Prop for C12 {
     const ID: &'static str = "C12";
     const LEVEL: &'static str = "fault_enumeration";
     fn rule() -> &'static str {
-        "leak enumeration: every value with a destructor or borrow that the API returns (DrainRow, DrainCol, pop forms, Rows, RowsMut, Col, ColMut, Cells, CellsMut, TooDeeView, TooDeeViewMut, IntoIter) x shapes (0..=5)^2 x every index x every (front,back) consumption with front+back <= n, then mem::forget; random shapes up to 14x14. Oracle: C01 shape invariant, reachable ids live + pairwise distinct + subset of the original (or written by the harness), no double drop now, after the fixed follow-up, or at the final drop; handed-out items are not also still in the array. Non-trivial = drain of a non-last line leaked, or a drain leaked after partial consumption. Distinct = distinct case tuple."
+        "leak enumeration: every value with a destructor or borrow that the API returns (DrainRow, DrainCol, pop forms, Rows, RowsMut, Col, ColMut, Cells, CellsMut, TooDeeView, TooDeeViewMut, IntoIter) x shapes (0..=5)^2 x every index x every (front,back) consumption with front+back <= n, then mem::forget; random shapes up to 14x14. Oracle: C01 shape invariant, reachable ids live + pairwise distinct + subset of the original (or written by the harness), no double drop now, after the fixed follow-up, or at the final drop; handed-out items are not also still in the array. Non-trivial = drain of a non-last line leaked, or a drain leaked after partial consumption. Distinct = distinct case tuple. Also: 40-byte and 16-byte element types and arrays of more than a megabyte (up to 255x255)."
     }
     fn bound(_tier: Tier) -> String {
         "shapes (0..=5)^2, every line index, every (front,back) split, 13 leakable kinds, element types Tr, Bx (heap-owning), Zs (zero-sized) and u32 (no drop glue: only duplication is observable)".into()
